@@ -147,6 +147,7 @@ func init() {
 			{Name: "prefixes", Run: prefixUnit("bed", false, 0)},
 			{Name: "edges", Run: edgeUnit("bed")},
 			{Name: "fieldlens", TShards: 2, Run: lengthUnit("bed")},
+			{Name: "parallel", Race: true, Run: codecParallel("bed")},
 		},
 	})
 }
